@@ -28,7 +28,7 @@ RULE = ("seeded configurations (pipelines with nested parameter maps, sweeps wit
         "YAML rewrite: key order at every depth, flow/block style, quoting, float spellings, anchors, +/* operand order} x one "
         "fresh interpreter under a different PYTHONHASHSEED x three paths. distinct_nontrivial = distinct (config digest, world "
         "digest) pairs in which all three paths produced identities."
-        " Further seeded dimensions: every bool spelling, sweeps without expressions, integral value lists with type-variant twins in the history, library loader on a just-rewritten path, trace detail sampled from all flag subsets, the traced Pipeline object run twice, pristine YAML loader as the judge of meaning.")
+        " Further seeded dimensions: every bool spelling, sweeps without expressions, integral value lists with type-variant twins in the history, library loader on a just-rewritten path, trace detail sampled from all flag subsets, the traced Pipeline object run twice, pristine YAML loader as the judge of meaning. Seventh round: a long-lived orchestrator serving 150-300 short-lived Pipelines (A / sibling alternating), container-valued parameters with aliased lists/maps, refused rewrites are violations.")
 REAL_COMPONENTS = ["graph_builder (canonical spec, node uuids, pipeline id)", "metadata.semantic_id", "inspection builder / reporter",
                    "cli inspect / cli run", "orchestrator (pipeline_start meta)", "node_preprocess / sweep factory", "YAML loader"]
 STUB_COMPONENTS = ["leaf processors", "RecordingExecutor", "SimClock/SimUUID", "PyYAML dumper variants (harness-side rewriter)"]
